@@ -286,3 +286,222 @@ func outageVias(o outageObs, listenerAddr string, udpPort int) string {
 	}
 	return ""
 }
+
+// ---- a TCP next hop that refuses connections, then accepts them ----
+
+type hopArrival struct {
+	At     string   `json:"at"`
+	AtHop  bool     `json:"at_the_hop"`
+	Routes []string `json:"route_entries"`
+	Vias   int      `json:"via_entries"`
+}
+
+type hopStep struct {
+	Phase   string       `json:"phase"` // "down", "up"
+	Layout  string       `json:"route_layout"`
+	Request string       `json:"request"`
+	Sent    []string     `json:"route_entries_sent"`
+	OwnTop  bool         `json:"own_entry_on_top"`
+	Arrived []hopArrival `json:"arrived"`
+	Twin    *hopStep     `json:"same_request_other_layout,omitempty"`
+}
+
+type hopObs struct {
+	Hop   string    `json:"tcp_next_hop"`
+	Fresh bool      `json:"hop_never_used_before"`
+	Keep  bool      `json:"keep_next_hop_route"`
+	Steps []hopStep `json:"steps"`
+}
+
+func (o hopObs) String() string {
+	var sb strings.Builder
+	fmt.Fprintf(&sb, "TCP next hop %s (keep-next-hop-route %v);", o.Hop, o.Keep)
+	for _, s := range o.Steps {
+		var at []string
+		for _, a := range s.Arrived {
+			at = append(at, fmt.Sprintf("%s with Route %q", a.At, a.Routes))
+		}
+		if len(at) == 0 {
+			at = []string{"nowhere"}
+		}
+		fmt.Fprintf(&sb, " [hop %s, Route %s%q] %s -> %s;", s.Phase, s.Layout, s.Sent, s.Request, strings.Join(at, " + "))
+	}
+	return sb.String()
+}
+
+// hopOutage plays, over UDP ingress of listen entry 0: requests whose first
+// Route entry (optionally behind the listener's own) names a TCP next hop where
+// nobody listens - followed by two further entries naming live UDP elements,
+// the To host having a static route to yet another live element - then the hop
+// starts listening and further such requests follow within a second or two.
+// twin: every request is sent twice (new Call-ID and branch), once with the
+// Route entries joined on one line, once with one line per entry.
+func (s *stdSvc) hopOutage(rt *rapid.T, test string, twin bool) (obs hopObs, ok bool, err error) {
+	l := s.in.cfg.Listens[0]
+	obs.Keep = s.in.cfg.keepOn()
+	ua := rapid.IntRange(0, 3).Draw(rt, "ua")
+	g := stdIngress{UA: ua, Entry: 0, TCP: false}
+	send, srcIP, _, e := s.sender(g)
+	if e != nil {
+		return obs, false, e
+	}
+	uaIP := s.uas[ua].ip
+	// the hop: a port of .26 where nothing listens yet
+	s.seq++
+	hip, hport := s.ip(26), 7000+s.seq%20000
+	obs.Hop, obs.Fresh = fmt.Sprintf("%s:%d", hip, hport), true
+	// (the same address and port over UDP is a live element of its own: the entry says transport=tcp)
+	if _, err := s.in.hub.udpEP("hop-address-over-udp", hip, hport); err != nil {
+		return obs, false, fmt.Errorf("bind: %v", err)
+	}
+	further := []string{fmt.Sprintf("<sip:%s:5070;lr>", s.ip(24)), fmt.Sprintf("<sip:%s:5070;lr>", s.ip(22))}
+	hopEntry := fmt.Sprintf("<sip:%s:%d;transport=tcp;lr>", hip, hport)
+	own := fmt.Sprintf("<sip:%s:%d;lr>", l.Addr, l.UDPPort)
+	one := func(phase, layout string, ownTop bool, min int) (hopStep, error) {
+		id := s.nextID("hop-")
+		entries := append([]string{hopEntry}, further...)
+		sent := entries
+		if ownTop {
+			sent = append([]string{own}, entries...)
+		}
+		var rl string
+		if layout == "joined" {
+			rl = "Route: " + strings.Join(sent, ", ") + "\r\n"
+		} else {
+			for _, e := range sent {
+				rl += "Route: " + e + "\r\n"
+			}
+		}
+		method := rapid.SampledFrom([]string{"MESSAGE", "OPTIONS", "INVITE", "INFO"}).Draw(rt, "method")
+		wire := []byte(fmt.Sprintf("%s sip:x@static-udp.test SIP/2.0\r\nVia: SIP/2.0/UDP %s:5060;branch=z9hG4bK%s\r\nMax-Forwards: 70\r\n%sFrom: <sip:a@a.example>;tag=f%s\r\nTo: <sip:x@static-udp.test>\r\nCall-ID: %s\r\nCSeq: 1 %s\r\nContent-Length: 0\r\n\r\n", method, uaIP, id, rl, id, id, method))
+		st := hopStep{Phase: phase, Layout: layout, Request: method + " " + id, Sent: entries, OwnTop: ownTop}
+		s.model.learnRequest(s.transportOf(g), srcIP, &AMsg{IsReq: true, Hdrs: []AHdr{{Kind: hVia, Vias: []AVia{{Host: uaIP}}}}})
+		s.in.expect(wire)
+		if err := send(wire); err != nil {
+			return st, err
+		}
+		rs, err := s.in.settle(send, min)
+		if err != nil {
+			return st, err
+		}
+		for _, r := range labMessages(rs) {
+			a := hopArrival{At: r.where(), Routes: r.msg.Entries(hRoute), Vias: len(r.msg.Entries(hVia))}
+			a.AtHop = r.tcp != nil && r.ep != nil && r.ep.ip == hip && r.ep.port == hport
+			st.Arrived = append(st.Arrived, a)
+		}
+		return st, nil
+	}
+	step := func(phase string, min int) error {
+		layout := rapid.SampledFrom([]string{"joined", "one line each"}).Draw(rt, "route layout")
+		ownTop := rapid.Bool().Draw(rt, "own entry on top")
+		st, err := one(phase, layout, ownTop, min)
+		if err != nil {
+			obs.Steps = append(obs.Steps, st)
+			return err
+		}
+		if twin {
+			other := map[string]string{"joined": "one line each", "one line each": "joined"}[layout]
+			tw, err := one(phase, other, ownTop, min)
+			st.Twin = &tw
+			if err != nil {
+				obs.Steps = append(obs.Steps, st)
+				return err
+			}
+		}
+		obs.Steps = append(obs.Steps, st)
+		V.Journal(test, obs)
+		return nil
+	}
+	for i, k := 0, rapid.IntRange(1, 3).Draw(rt, "requests while the hop refuses"); i < k; i++ {
+		if err := step("down", 0); err != nil {
+			return obs, false, err
+		}
+		time.Sleep(time.Duration(rapid.IntRange(0, 300).Draw(rt, "gap ms")) * time.Millisecond)
+	}
+	if _, err := s.in.hub.tcpEP("hop-tcp", hip, hport); err != nil {
+		return obs, false, fmt.Errorf("hop cannot listen: %v", err)
+	}
+	for i, k := 0, rapid.IntRange(2, 4).Draw(rt, "requests after the hop came up"); i < k; i++ {
+		if err := step("up", 1); err != nil {
+			return obs, false, err
+		}
+		time.Sleep(time.Duration(rapid.IntRange(0, 300).Draw(rt, "gap ms")) * time.Millisecond)
+	}
+	return obs, true, nil
+}
+
+// hopDestination: C03's promise over the history - the destination is the
+// first remaining Route entry, whether or not it can be reached: a request
+// reaches the hop or nobody, and the hop once it accepts connections.
+func hopDestination(o hopObs) string {
+	var steps []hopStep
+	for _, st := range o.Steps {
+		steps = append(steps, st)
+		if st.Twin != nil {
+			steps = append(steps, *st.Twin)
+		}
+	}
+	for _, st := range steps {
+		n := 0
+		for _, a := range st.Arrived {
+			if !a.AtHop {
+				return fmt.Sprintf("%s: its first remaining Route entry names %s over TCP (%s), and it was delivered to %s - no request is sent to a destination other than the one chosen by the precedence, reachable or not; history: %s", st.Request, o.Hop, map[string]string{"down": "refusing connections at that moment", "up": "accepting connections"}[st.Phase], a.At, o)
+			}
+			n++
+		}
+		if n > 1 {
+			return fmt.Sprintf("%s was delivered %d times to %s; history: %s", st.Request, n, o.Hop, o)
+		}
+		if st.Phase == "up" && n == 0 {
+			return fmt.Sprintf("%s: its first remaining Route entry names %s over TCP, which was listening and accepting connections, and the request reached nobody (earlier requests had found the hop refusing); history: %s", st.Request, o.Hop, o)
+		}
+	}
+	return ""
+}
+
+// hopRoutes: C13's promise - what arrives at the hop carries the further
+// entries unchanged and in order, behind the hop's own entry iff
+// keep-next-hop-route is on.
+func hopRoutes(o hopObs) string {
+	for _, st := range o.Steps {
+		for _, s2 := range []*hopStep{&st, st.Twin} {
+			if s2 == nil {
+				continue
+			}
+			want := s2.Sent[1:]
+			if o.Keep {
+				want = s2.Sent
+			}
+			for _, a := range s2.Arrived {
+				if strings.Join(a.Routes, "|") != strings.Join(want, "|") {
+					return fmt.Sprintf("%s (hop %s) arrived at %s with Route %q, expected %q (own entry on top: %v, layout %s, keep-next-hop-route %v); history: %s", s2.Request, s2.Phase, a.At, a.Routes, want, s2.OwnTop, s2.Layout, o.Keep, o)
+				}
+			}
+		}
+	}
+	return ""
+}
+
+// hopTwins: C17's promise - the two layouts of the same Route set fare alike.
+func hopTwins(o hopObs) string {
+	sig := func(s *hopStep) string {
+		var out []string
+		for _, a := range s.Arrived {
+			at := a.At
+			if a.AtHop {
+				at = "the hop"
+			}
+			out = append(out, fmt.Sprintf("%s Route=%q Vias=%d", at, a.Routes, a.Vias))
+		}
+		return strings.Join(out, " + ")
+	}
+	for _, st := range o.Steps {
+		if st.Twin == nil {
+			continue
+		}
+		if a, b := sig(&st), sig(st.Twin); a != b {
+			return fmt.Sprintf("the same Route set %q (hop %s) written %s: relayed to [%s]; written %s: relayed to [%s]; history: %s", st.Sent, st.Phase, st.Layout, a, st.Twin.Layout, b, o)
+		}
+	}
+	return ""
+}
